@@ -97,6 +97,75 @@ type Sess struct {
 	stop  bool
 	queue []*Op // scripted bursts (run before anything else is generated)
 	steerFollow []byte // file whose last WRITE failed for lack of space
+	enum  *enumChain // page-by-page enumeration in progress (consecutive requests only)
+}
+
+// enumChain: a READDIR/READDIRPLUS that did not reach end-of-directory is
+// continued from the cookie of its last entry by the very next request(s);
+// nothing else runs in between, so the pages together must list every entry
+// of the reference directory exactly once.
+type enumChain struct {
+	h        []byte
+	k        OpKind
+	seen     map[string]int
+	pages    int
+	lastStep int
+	next     uint64
+}
+
+func (s *Sess) followEnum(op *Op, res *Res) {
+	if res.Stat != stOK {
+		s.enum = nil
+		return
+	}
+	o := s.m.Obj(op.H)
+	if o == nil || o.Kind != KDir {
+		s.enum = nil
+		return
+	}
+	if len(res.Ents) == 0 && !res.Eof {
+		s.viol("reply", "op %d %s: OK reply with no entry and without end-of-directory (a client that follows cookies makes no progress)", s.step, op)
+		s.enum = nil
+		return
+	}
+	if op.Cookie == 0 {
+		s.enum = &enumChain{h: op.H, k: op.K, seen: map[string]int{}}
+	} else if s.enum == nil || !bytes.Equal(s.enum.h, op.H) || s.enum.k != op.K || s.step != s.enum.lastStep+1 || op.Cookie != s.enum.next {
+		s.enum = nil
+		return
+	}
+	c := s.enum
+	c.pages++
+	c.lastStep = s.step
+	for _, e := range res.Ents {
+		c.seen[e.Name]++
+		c.next = e.Cookie
+	}
+	if res.Eof {
+		want := []string{".", ".."}
+		for n := range o.Ents {
+			want = append(want, n)
+		}
+		for _, n := range want {
+			if c.seen[n] != 1 {
+				s.viol("reply", "op %d %s: page-by-page enumeration (%d pages, nothing else in between) returned %s %d times; the reference directory has it once", s.step, op, c.pages, shortName(n), c.seen[n])
+				break
+			}
+		}
+		if len(c.seen) > len(want) {
+			s.viol("reply", "op %d %s: page-by-page enumeration returned %d names, the reference directory has %d", s.step, op, len(c.seen), len(want))
+		}
+		s.enum = nil
+		return
+	}
+	if c.pages > len(o.Ents)+6 {
+		s.viol("reply", "op %d %s: enumeration of a directory of %d entries has not ended after %d pages", s.step, op, len(o.Ents)+2, c.pages)
+		s.enum = nil
+		return
+	}
+	// continue with the next request
+	nx := &Op{K: op.K, H: op.H, Cookie: c.next, Count: op.Count, Dircount: op.Dircount}
+	s.queue = append([]*Op{nx}, s.queue...)
 }
 
 var namePool = []string{"a", "b", "c", "f1", "f2", "g", "d0", "d1", "d2", "lnk", "x y", "ü"}
@@ -477,8 +546,8 @@ func (s *Sess) genOp() *Op {
 	case OpReaddir, OpReaddirplus:
 		op.H = s.handleFor(KDir)
 		op.Cookie = 0
-		op.Count = r.PickU32([]uint32{0, 1, 64, 200, 512, 4096, 1 << 20, ^uint32(0)})
-		op.Dircount = r.PickU32([]uint32{0, 1, 64, 512, 4096, ^uint32(0)})
+		op.Count = r.PickU32([]uint32{0, 1, 64, 200, 300, 400, 512, 1000, 4096, 1 << 20, ^uint32(0)})
+		op.Dircount = r.PickU32([]uint32{0, 1, 64, 100, 200, 512, 4096, ^uint32(0)})
 	case OpCommit:
 		op.H = s.handleFor(KReg)
 		o := s.m.Obj(op.H)
@@ -653,6 +722,9 @@ func (s *Sess) exec(op *Op) *Res {
 			cl = "content"
 		}
 		s.viol(cl, "op %d %s: %s", s.step, op, m)
+	}
+	if op.K == OpReaddir || op.K == OpReaddirplus {
+		s.followEnum(op, res)
 	}
 	if res.Stat == stOK && res.FH != nil {
 		s.res.HandlesIssued++
